@@ -11,7 +11,8 @@ def parse_response(data, method=b'GET', eof=True):
     out = {'ok': False, 'error': None, 'status': None, 'reason': None, 'headers': [], 'body': b'',
            'complete': False, 'trailing': b'', 'informational': []}
     try:
-        c.receive_data(bytes(data))
+        if len(data):
+            c.receive_data(bytes(data))
         fed_eof = False
         while True:
             ev = c.next_event()
